@@ -91,13 +91,19 @@ def parseList : Nat → List String → Option (List Str × List String)
 
 def bool? (s : String) : Option Bool := if s = "1" then some true else if s = "0" then some false else none
 
+def clsStr : AckClass → String
+  | .cbOk => "ok" | .cbCode => "code" | .cbEvmFail => "evm" | .dstNotFound => "nodst" | .relayed => "relayed"
+
+def cb? : String → Option Cb
+  | "ok" => some .ok | "code" => some .code | "evm" => some .evmFail | _ => none
+
 def runMsg (st : St) (m : Msg) : St × String :=
   let (st', ok) := deliver asciiFold st m
   if !ok then (st, "rej") else
   let toks := diff st st'
   let rl := match m with
-    | .recv _ p _ => (match ackOf st'.acks p.triple, ackOf st.acks p.triple with
-                      | some (some r), none => [ "rl=" ++ hex r ]
+    | .recv _ p _ _ => (match ackOf st'.acks p.triple, ackOf st.acks p.triple with
+                      | some ⟨some r, c⟩, none => [ "rl=" ++ hex r, "cls=" ++ clsStr c ]
                       | _, _ => [])
     | _ => []
   (st', joinWith " " ("ok" :: toks ++ rl))
@@ -149,11 +155,12 @@ def stepMsg (st : St) (line : String) : St × String :=
     | some raw, some canon, some ch, some hdrOK, some newTss =>
       runMsg st (.update ⟨raw, canon⟩ ch hdrOK newTss)
     | _, _, _, _, _ => (st, "bad-op")
-  | ["recv", raw, canon, src, dst, seq, hasData, proofOK] =>
-    match unhex raw, unhex canon, unhex src, unhex dst, seq.toNat?, bool? hasData, bool? proofOK with
-    | some raw, some canon, some src, some dst, some seq, some hasData, some proofOK =>
-      runMsg st (.recv ⟨raw, canon⟩ ⟨src, dst, seq, hasData⟩ proofOK)
-    | _, _, _, _, _, _, _ => (st, "bad-op")
+  | ["recv", raw, canon, src, dst, seq, kind, proofOK, cb] =>
+    -- kind: 0 = packet without data (fails ValidateBasic), 1.. = the harness' data variants
+    match unhex raw, unhex canon, unhex src, unhex dst, seq.toNat?, kind.toNat?, bool? proofOK, cb? cb with
+    | some raw, some canon, some src, some dst, some seq, some kind, some proofOK, some cb =>
+      runMsg st (.recv ⟨raw, canon⟩ ⟨src, dst, seq, kind != 0⟩ proofOK cb)
+    | _, _, _, _, _, _, _, _ => (st, "bad-op")
   | ["ack", raw, canon, src, dst, seq, hasData, genuine, proofOK, rl, dec, evm] =>
     match unhex raw, unhex canon, unhex src, unhex dst, seq.toNat?, bool? hasData, bool? genuine, bool? proofOK,
           unhex rl, bool? dec, bool? evm with
